@@ -115,6 +115,28 @@ CHECKS = {
         note="payload delivered within the second it was sent; stable full mesh apart from explicit leave events",
         technique="TLA+ spec Forward + TLC exhaustive; schedule replay and random sequences on real meshes; TLC trace validation",
         design_ref="DESIGN.md 3.6, 6 (C10)"),
+    "C13": dict(
+        text="Forward.tla with VLAN keys (priority tags counted as untagged), last-writer-wins learning, expiry and leaves is checked by TLC (OneHopPerAddr, LearnedArePeers, "
+             "OnlySwitchLearns); frame sequences over 3 MACs x 5 VLAN tags x 16 PCP/DEI nibbles x nested tags with time steps around the switch timeout and leaves on real 3-4 node "
+             "meshes are replayed through the specification (the next hops of every frame must be what learning admits; hub/router keep flooding/dropping); all 65536 tag-control values.",
+        note="switch timeout 10 s in recorded runs; the tick at exactly t0+timeout is a don't-care; table-level learning is shared with C11/C12 (tablecommon)",
+        technique="TLA+ spec Forward + TLC; random frame sequences on real meshes; TLC trace validation",
+        design_ref="DESIGN.md 3.5, 3.6, 6 (C13)"),
+    "C14": dict(
+        text="Mesh.tla: TLC enumerates every bootstrap configuration (directed dial instructions x NAT subsets that leave the graph connectable) on 2-4 nodes and checks full mesh after "
+             "ceil(log2 n)+1 rounds and no self-link; the same initial states are the configurations run on real mock nodes (all n<=3, sample/all of 37508 for n=4, sampled 5-8 node graphs), "
+             "plus self-dial scenarios with looped-back and port-forwarded addresses; TLC judges every run record (deadline, stability, no self-peer, own address adopted and never dialled).",
+        note="default settings (interval 90 s); mock NAT filter; dial instructions are configured peers",
+        technique="TLA+ spec Mesh + TLC (configuration enumerator); every configuration executed on real nodes; TLC record validation",
+        design_ref="DESIGN.md 3.6, 6 (C14)"),
+    "C15": dict(
+        text="Interval.tla: TLC checks the announcement-interval rule against IntervalOK for every advertised timeout x the grid of own settings; on real nodes every scheduling of the next "
+             "announcement is observed for own timeouts/keepalives from the grid x advertised timeouts (0..300 + boundaries, all 65536 in thorough) x peer sets, heterogeneous meshes and late "
+             "joiners must never time anybody out, silence injected at every second of a window must lead to removal with routes exactly one tick after the timeout and a re-dial, and 48 h "
+             "against an unreachable configured peer must keep dialling with gaps <= 1 h; TLC judges every record.",
+        note="last refresh read from the node's expiry field; delay 0 counts as <= 1 s; timeouts >= 1 in heterogeneous meshes",
+        technique="TLA+ spec Interval + TLC; systematic plans on real nodes; TLC record validation",
+        design_ref="DESIGN.md 3.7, 6 (C15)"),
 }
 
 PENDING = {}
